@@ -196,6 +196,21 @@ def rendering(repo, chk, rule='C09.M1'):
     chk.expect(out == [b'f:', b'    halt', b'    ; c', b'halt'], rule, 'asm.lines indentation', f'{out}', ASM)
 
 
+def _is_subclass(repo, sub, sup):
+    """Class `sub` of asm.py derives (transitively) from `sup`, read off the class statements."""
+    classes = repo.classes(ASM)
+    seen, todo = set(), [sub]
+    while todo:
+        c = todo.pop()
+        if c == sup:
+            return True
+        if c in seen or c not in classes:
+            continue
+        seen.add(c)
+        todo += [src(b).split('.')[-1].split('[')[0] for b in classes[c].bases]
+    return False
+
+
 def run(repo, chk):
     chk.explanation = (
         'For each operator the chain token -> AST class -> compile-time fold -> run-time instruction class -> '
@@ -511,7 +526,11 @@ def run(repo, chk):
         conds = _efg.Conds(ev)
         em = [e.short() for e in items_of(ev)]
         if conds.get('isinstance(value, asm.IntLiteral)'):
-            rets = [src(e.value) for e in ev if e.kind == 'return']
+            # the folded literal is what is returned: directly, or as `result` through the common tail (where a literal,
+            # being an Immediate, is packed and never pushed - the path that takes it for a non-immediate cannot happen)
+            if conds.get('isinstance(result, asm.Immediate)') is False and _is_subclass(repo, 'IntLiteral', 'Immediate'):
+                continue
+            rets = [_efg.expand(ev, i, e.value, keep=('value',)) for i, e in enumerate(ev) if e.kind == 'return']
             chk.expect(rets == ['self.vacpack(asm.IntLiteral(int(bool(value.data))))'], 'C09.M3', 'eval_expr[IntToBool literal]', f'{rets}', GEN)
             continue
         n_norm += 1
